@@ -32,5 +32,7 @@ Insert(id, a, b, e) == vals' = vals \cup {[id |-> id, a |-> a, b |-> b, e |-> e]
 BulkVals(id0, n, a, b, e) == {[id |-> id0 + i, a |-> a, b |-> b, e |-> e] : i \in 0..(n - 1)}
 BulkInsert(id0, n, a, b, e) == vals' = vals \cup BulkVals(id0, n, a, b, e) /\ UNCHANGED now
 Query(t) == CanQuery(t) /\ now' = t /\ UNCHANGED vals
+\* n complete queries at the times t, t + 1, .., t + n - 1
+Ticks(t, n) == CanQuery(t) /\ n >= 1 /\ now' = t + n - 1 /\ UNCHANGED vals
 Clear == vals' = {} /\ now' = 0
 =============================================================================
